@@ -49,7 +49,7 @@ func TestC18(t *testing.T) {
 	seed := hx.Seed()
 	rng := rand.New(rand.NewSource(seed))
 	out := hx.NewOut()
-	defer out.Close("four tolerated-failure boundaries on the real keepers x failure points. attestation: every claim type (bridge token new / existing / FX with wrong decimals / FX ok, oracle set missing / nonce 0, send-to-fx, bridge call, bridge call result). inbound bridge call (real ExecuteClaim): 0..3 tokens, refund ==/<> receiver, funded or not, memo send-call-to, target without code; revert, store+revert, invalid opcode, out of gas at several gas caps, successful code under a too small gas cap, insufficient balance for the call value, disabled pair at the first/middle/last token, unknown token. gov (real EndBlocker): 1..4 messages (bank sends, contract calls that write storage), the failing one first/middle/last: overdrawn send, reverting / store+revert / invalid / out-of-gas contract, address without code, a handler that PANICS after a write (MsgVerifyInvariant on a broken invariant). IBC receive, each scenario through the mimicked core AND through the real ibc-go core RecvPacket over the localhost client: bridged voucher / FX coin, hex / bech32 receiver, foreign voucher, receive disabled, disabled pair, memo that is not a call, invalid memo, call revert / store+revert / invalid / out of gas / insufficient balance / CallEVM error. monitors: key-level multistore dump after the failure == dump of the designated outcome applied on a fresh branch of the same pre-state; acknowledgement kind; proposal status. correspondence: bank-level model (bci), compositions compiled from call lists (att/gov/ibc), and Model.C18P.exec on the regenerated structured programs (patt/pgov/pbci/pibc: which leaves' effects are in the state). non-trivial = distinct (boundary, failure point, configuration)")
+	defer out.Close("four tolerated-failure boundaries on the real keepers x failure points. attestation: every claim type (bridge token new / existing / FX with wrong decimals / FX ok, oracle set missing / nonce 0, send-to-fx, bridge call, bridge call result). inbound bridge call (real ExecuteClaim): 0..3 tokens, refund ==/<> receiver, funded or not, memo send-call-to, target without code; revert, store+revert, invalid opcode, out of gas at several gas caps, successful code under a too small gas cap, insufficient balance for the call value, disabled pair at the first/middle/last token, unknown token. gov (real EndBlocker): 1..4 messages (bank sends, contract calls that write storage), the failing one first/middle/last: overdrawn send, reverting / store+revert / invalid / out-of-gas contract, address without code, a handler that PANICS after a write (MsgVerifyInvariant on a broken invariant). IBC receive, each scenario through the mimicked core AND through the real ibc-go core RecvPacket over the localhost client: bridged voucher / FX coin, hex / bech32 receiver, foreign voucher, receive disabled, disabled pair, memo that is not a call, invalid memo, call revert / store+revert / invalid / out of gas / insufficient balance / CallEVM error. monitors: key-level multistore dump after the failure == dump of the designated outcome applied on a fresh branch of the same pre-state; acknowledgement kind; proposal status. correspondence: bank-level model (bci), compositions compiled from call lists (att/gov/ibc), and Model.C18P.exec on the regenerated structured programs (patt/pgov/pbci/pibc: which leaves' effects are in the state). round 3: the crosschain boundaries run on eth / bsc / tron in turn; the refund of a failed contract call failing itself (no observed external height: hard failure, ExecuteClaim must return the error) at keeper level and through the real executeClaim precompile as an included transaction; a panicking attestation handler (batch-executed event for an unknown batch) on a transaction-like branch; blocks of proposals ending together (pgovb); pxc = Model.C18P.exec on executeClaimPrecompileProg. non-trivial = distinct (boundary, failure point, configuration)")
 
 	nseq := hx.N(12, 60)
 	for i := 0; i < nseq; i++ {
